@@ -7,7 +7,7 @@
     meaning; a lost end-of-stream marker shows as a hang, a lost element as a wrong result). *)
 From Noir Require Import Model.Pipe Corr.Canon.
 From Noir Require Corr.C01.
-From Noir Require Import Model.Net Proofs.NetDagProofs.
+From Noir Require Import Model.Net Proofs.NetDagProofs Proofs.NetMuxProofs.
 From Noir Require Gen.Consts.
 From Coq Require Import NArith List Bool Arith.
 Import ListNotations.
@@ -80,6 +80,24 @@ Definition links_listed (g : gdump) : bool :=
   forallb (fun l => existsb (pair_eqb (fst l)) (g_nodes g) && existsb (pair_eqb (snd l)) (g_nodes g) &&
                     existsb (pair_eqb (fst (fst l), fst (snd l))) (g_edges g)) (g_links g).
 
+(** ---- fourth kind: the execution graph of an acyclic job on SEVERAL hosts, laid out by the
+    harness as an [mdag] (replicas, one demultiplexer per block pair and host pair, final and
+    connection channels); [mstruct_okb] and the capacity condition [mcap_okb] are the premises
+    of C04_multi_host_no_deadlock / _job_terminates. ---- *)
+Record mdump := { md_cfgs : list rcfg; md_cons : list nat; md_nterm : list nat }.
+Definition mdag_of (g : mdump) : mdag :=
+  let dflt := {| r_kind := KSrc; r_outs := []; r_douts := [] |} in
+  {| m_n := length (md_cfgs g); m_nc := length (md_cons g);
+     m_cfg := fun i => nth i (md_cfgs g) dflt; m_data := fun _ => [];
+     m_cons := fun c => nth c (md_cons g) 0%nat;
+     m_cap := fun _ => N.to_nat Consts.CHANNEL_CAPACITY;
+     m_nterm := fun i => nth i (md_nterm g) 0%nat |}.
+Definition m_all_fed (g : mdump) : bool :=
+  forallb (fun cf => match r_kind cf with
+                     | KOp1 _ k => Nat.leb 1 k
+                     | KOp2 _ kl _ kr => Nat.leb 1 kl && Nat.leb 1 kr
+                     | _ => true end) (md_cfgs g).
+
 (** A second kind of case: the engineered two-host hash join of two parallel sources of
     harness/src/props/muxjoin.rs (finite input, finite user sleeps): host X with 2 cores, host
     Y with the rest; [early] = the two stragglers emit one late item each, so that their End
@@ -89,7 +107,8 @@ Inductive mj_outcome := MJDone (joined : N) | MJHang.
 Inductive case :=
 | KJob (c : C01.case)
 | KMuxJoin (cores : list nat) (early : bool) (expected : N) (o : mj_outcome)
-| KDag (g : gdump).
+| KDag (g : gdump)
+| KMDag (g : mdump).
 
 Definition prop_ok (c : case) : bool :=
   match c with
@@ -97,6 +116,7 @@ Definition prop_ok (c : case) : bool :=
   | KMuxJoin _ _ expected (MJDone n) => N.eqb n expected
   | KMuxJoin _ _ _ MJHang => false
   | KDag g => all_inputs_fed g      (* otherwise the unfed replicas panic at start-up (F11) *)
+  | KMDag g => m_all_fed g && mcap_okb (mdag_of g)   (* more producers than capacity on an input of a two-input block: F13 *)
   end.
 
 (** known finding F13 (class 4): remote messages of one (block pair, host pair) share one
@@ -117,6 +137,7 @@ Definition known_class (c : case) : N :=
       | MJDone _ => 0%N
       end
   | KDag g => if all_inputs_fed g then 0%N else 2%N
+  | KMDag g => if negb (m_all_fed g) then 2%N else if negb (mcap_okb (mdag_of g)) then 4%N else 0%N
   end.
 
 Definition corr_ok (c : case) : bool :=
@@ -124,5 +145,6 @@ Definition corr_ok (c : case) : bool :=
   | KJob x => C01.corr_ok x
   | KMuxJoin _ _ _ _ => prop_ok c || negb (N.eqb (known_class c) 0%N)
   | KDag g => links_listed g && (dag_okb (dag_of g) || negb (all_inputs_fed g))
+  | KMDag g => mstruct_okb (mdag_of g) || negb (m_all_fed g)
   end.
 Definition report (cs : list case) := classify corr_ok prop_ok known_class cs.
